@@ -1,20 +1,24 @@
 import PoxModel.Model.FlowTable
-/-! # Code variants of `ofp_match` — the proposed repairs of the open findings D26 / D37 / D38   (core Lean only)
+/-! # Code variants of `ofp_match`   (core Lean only)
 
-`Model/Match.lean` mirrors `/repo` HEAD.  Three one-place repairs are proposed (`/verif/fixes/C03_D*.diff`); until they are committed the
-check has to follow both trees, so the three places are modelled here with a `Variant` saying which repairs the code under test has
-(`harness/c03.py` reads that off the source of `libopenflow_01.py`, pattern-checked; the correspondence run then validates it):
+`Model/Match.lean` mirrors the tree *before* any of the repairs below.  Each repair is one place in `libopenflow_01.py`; a `Variant`
+says which of them the tree under test has.  `harness/c03.py` decides that on every run by probing the real code's behaviour on one
+witness input per repair (the source shape is only a cross-check) and the correspondence run validates the choice on every case.
 
-* `arpLow8` (D37) — `from_packet`, ARP branch: `nw_proto = p.opcode & 0xff` and the addresses, for every opcode
-  (HEAD: only `if p.opcode <= 255`)                                                   → `Variant.extract`, `Variant.fromPacket`
-* `prereqExact` (D38) — `_unwire_wildcards` reads `_dl_type` / `_nw_proto` only where they are not wildcarded
-  (`None` otherwise; HEAD: reads the raw field)                                       → `Variant.unwire`, `Variant.ofWire`
-* `tosDscp` (D36) — ToS reduced to its six DSCP bits in extraction and comparison            → `Variant.pktHeaders`, `Variant.mww`
-* `exactSig` (D26) — `is_wildcarded` is `self.wildcards & ~self._unwire_wildcards(0) & OFPFW_ALL != 0`: wildcard bits of fields
-  that are ignored for lack of prerequisites do not count (HEAD: `self.wildcards & OFPFW_ALL != 0`)
+* `arpLow8` (D37, commit 87639a8) — `from_packet`, ARP branch: `nw_proto = p.opcode & 0xff` and the addresses, for every opcode
+  (before: only `if p.opcode <= 255`)                                                 → `Variant.extract`, `Variant.fromPacket`
+* `prereqExact` (D38, ec3e1cc) — `_unwire_wildcards` reads `_dl_type` / `_nw_proto` only where they are not wildcarded
+  (`None` otherwise; before: reads the raw field)                                     → `Variant.unwire`, `Variant.ofWire`
+* `exactSig` (D26, c4916b4) — `is_wildcarded` is `self.wildcards & ~self._unwire_wildcards(0) & OFPFW_ALL != 0`: wildcard bits of fields
+  that are ignored for lack of prerequisites do not count (before: `self.wildcards & OFPFW_ALL != 0`)
                                                                                       → `Variant.isWildcarded`, `Variant.effectivePriority`
+* `tosDscp` (D36, fe3a4cf) — ToS reduced to its six DSCP bits in extraction and comparison    → `Variant.pktHeaders`, `Variant.mww`
+* `arpTypeGuard` (C03-K7, 69b444a) — `from_packet`, ARP branch: `elif isinstance(p, arp) and match.dl_type == ethernet.ARP_TYPE`
+  (before: `elif isinstance(p, arp)` — the packet library also parses RARP, 0x8035, with its `arp` class)  → `Variant.pktHeaders`
 
-`Variant.head` gives back the functions of `Model/Match.lean` / `Model/FlowTable.lean` (`Proofs/MatchV.lean`: `head_*`). -/
+`/repo` HEAD has all five: `Variant.current`.  `Variant.head` (none) gives back the functions of `Model/Match.lean` /
+`Model/FlowTable.lean` (`Proofs/MatchV.lean`: `head_*`); `Variant.repaired` (the first three) and `Variant.full` (the first four) are the
+trees in between — a revert of a repair makes the harness select them again. -/
 namespace Pox.OF
 
 structure Variant where
@@ -24,14 +28,19 @@ structure Variant where
   /-- repair D36 (`fixes/C04_D36_tos_dscp.diff`): `from_packet` assigns `p.tos & 0xfc`, `matches_with_wildcards` compares
       `nw_tos & 0xfc` on both sides (HEAD: the full ToS byte in both places) -/
   tosDscp : Bool := false
+  /-- repair C03-K7 (`fixes/C03_rarp_not_arp.diff`, commit 69b444a): the ARP branch of `from_packet` is taken only when the dl_type
+      assigned so far is 0x0806 (before: for every object of the packet library's `arp` class, which also parses RARP frames) -/
+  arpTypeGuard : Bool := false
   deriving DecidableEq, Repr
 
-/-- `/repo` HEAD: none of the repairs -/
+/-- the tree before all repairs (none of the flags) -/
 def Variant.head : Variant := { arpLow8 := false, prereqExact := false, exactSig := false }
-/-- repairs D37, D38, D26 applied (`/repo` HEAD while D36 is open) -/
+/-- repairs D37, D38, D26 applied (the tree while D36 was open) -/
 def Variant.repaired : Variant := { arpLow8 := true, prereqExact := true, exactSig := true }
-/-- … and D36 -/
+/-- … and D36 (the tree while C03-K7 was open) -/
 def Variant.full : Variant := { Variant.repaired with tosDscp := true }
+/-- … and C03-K7: **`/repo` HEAD** -/
+def Variant.current : Variant := { Variant.full with arpTypeGuard := true }
 
 namespace Variant
 variable (v : Variant) {α : Type}
@@ -72,9 +81,20 @@ def dscpM (m : OfMatch) : OfMatch := if v.tosDscp then { m with nwTos := dscpOf 
     pair is the same function.) -/
 def mww (c : Bool) (a b : OfMatch) : Bool := OfMatch.matchesWith c (v.dscpM a) (v.dscpM b)
 
-/-- what `from_packet(packet, in_port, spec_frags)` assigns, ToS included -/
+/-- the object `from_packet` is looking at when it comes to its L3 branches is an `arp` (behind the Ethernet header, a zero-OUI SNAP
+    header and / or an 802.1Q tag; nothing behind an LLC header without that SNAP header is looked at) -/
+def arpReached (p : PHdr) : Bool :=
+  (match p.llc with | some l => l.snapOui == some 0 | none => true) && (match p.l3 with | .arp _ _ _ => true | _ => false)
+
+/-- the ARP branch not taken: none of nw_proto / nw_src / nw_dst assigned -/
+def clearArp (o : OHeaders) : OHeaders := { o with nwProto := none, nwSrc := none, nwDst := none }
+
+/-- what `from_packet(packet, in_port, spec_frags)` assigns, ToS included.
+    `arpTypeGuard`: `elif isinstance(p, arp) and match.dl_type == ethernet.ARP_TYPE` — with another dl_type assigned, the ARP branch
+    is not taken. -/
 def pktHeaders (specFrags : Bool) (p : PHdr) (inPort : Option Nat) : OHeaders :=
   let o := v.extract specFrags p inPort
+  let o := if v.arpTypeGuard && arpReached p && o.dlType != some 0x0806 then clearArp o else o
   if v.tosDscp then { o with nwTos := o.nwTos.map dscpOf } else o
 
 /-- `from_packet(packet, in_port, spec_frags=True)`, what `entry_for_packet` matches against -/
